@@ -21,7 +21,15 @@ Wire form of one op (also what Driver/H_c03.lean decodes):
   queries: ["q", "init"] ["q", "pvals"] ["q", "classes"] ["q", "args", VALS|null, t] ["q", "argsro", VALS|null, t]
            ["q", "rhs", VALS|null, t] ["q", "fluxes", VALS|null, t] ["q", "call", t, VALS]
            ["q", "stoich", VALS|null, t] ["q", "stoichvar", name, VALS|null, t]
+           ["q", "names", "vars"|"pars"|"rxns"|"readouts"|"surouts"|"survars"|"surrxns"|"unused"]
+           ["q", "argnames", FLAGS]  ["q", "argsf", VALS|null, t, FLAGS]  ["q", "rawstoich", name]
+           ["q", "argstc", ROWS, FLAGS]  ["q", "fluxestc", ROWS]  ["q", "rhstc", ROWS]  ["q", "eq"]
   VALS = [rat, ...] cycled over the model's current variables in declaration order.
+  FLAGS = 9 booleans: include_time, _variables, _parameters, _derived_parameters, _derived_variables, _reactions,
+          _surrogate_variables, _surrogate_fluxes, _readouts.     ROWS = [[t, VALS], ...] (distinct times)
+  ["fork"]: the history continues on `copy.deepcopy(model)`; the original must stay as it was.
+  A VAL may carry "obj": true — the plural forms then receive a `Parameter` / `Variable` object instead of the bare value.
+  ["add_surrogate", n, SUR, args|null, outs|null, st|null]: the keyword form of add_surrogate.
 """
 from __future__ import annotations
 
@@ -61,8 +69,16 @@ def F(x):
 _FN_MEMO: dict = {}
 
 
-def mkfn(e, arity):
-    """a real Python function for `e` (memoised: pure functions may be shared between models)"""
+def mkfn(e, arity, sig=None):
+    """a real Python function for `e` (memoised: pure functions may be shared between models).
+    Without `sig` it has max(arity, highest argument index + 1) positional parameters; with
+    sig = [nargs, ndefaults|null, nkwonly, varargs] it has exactly that signature (what `inspect.getfullargspec`
+    reports): the last `ndefaults` positional parameters and all keyword-only ones default to 0.0."""
+    if sig is not None:
+        if sig[1:] == [None, 0, False] and sig[0] >= fexpr.max_arg(e) + 1:
+            arity = sig[0]  # a plain function: the same (memoised) object as without a stated signature
+        else:
+            return mkfn_sig(e, sig)
     arity = max(arity, fexpr.max_arg(e) + 1)
     key = (json.dumps(e), arity)
     f = _FN_MEMO.get(key)
@@ -71,6 +87,52 @@ def mkfn(e, arity):
         f._mxl_e = e
         _FN_MEMO[key] = f
     return f
+
+
+def mkfn_sig(e, sig):
+    key = ("sig", json.dumps(e), json.dumps(sig))
+    f = _FN_MEMO.get(key)
+    if f is not None:
+        return f
+    nargs, nd, kw, va = sig
+    nd0 = nd or 0
+    params = [f"a{i}" + ("=0.0" if i >= nargs - nd0 else "") for i in range(nargs)]
+    if va:
+        params.append("*rest")
+    elif kw:
+        params.append("*")
+    params += [f"k{i}=0.0" for i in range(kw)]
+    n = max(nargs, fexpr.max_arg(e) + 1)
+    names = [f"a{i}" for i in range(n)]
+    pre = "".join(f"    a{i} = rest[{i - nargs}]\n" for i in range(nargs, n)) if va else ""
+    src = f"def f({', '.join(params)}):\n{pre}    return {fexpr.src_expr(e, names)}\n"
+    ns: dict = {}
+    exec(compile(src, "<mxlverif-c03-sig>", "exec"), ns)  # noqa: S102
+    f = ns["f"]
+    f._mxl_e = e
+    f._mxl_sig = list(sig)
+    _FN_MEMO[key] = f
+    return f
+
+
+def fn_of(fj, arity=None):
+    """FN = {"args", "e", ["sig"]} -> function"""
+    return mkfn(fj["e"], len(fj["args"]) if arity is None else arity, fj.get("sig"))
+
+
+def bare_fn(x, n_new_args):
+    """the function argument of update_derived / update_reaction: a bare FExpr or {"e": FExpr, "sig": SIG};
+    without "sig" it gets max(number of NEW args, highest argument index + 1) positional parameters"""
+    if isinstance(x, dict):
+        return mkfn(x["e"], n_new_args, x.get("sig"))
+    return mkfn(x, n_new_args)
+
+
+def bare_parts(x):
+    """(FExpr, sig|None) of the function argument of an update op"""
+    if isinstance(x, dict):
+        return x["e"], x.get("sig")
+    return x, None
 
 
 def mkmulti(es, arity):
@@ -89,7 +151,68 @@ def mkval(vj):
 
     if "v" in vj:
         return F(vj["v"])
-    return InitialAssignment(fn=mkfn(vj["ia"]["e"], len(vj["ia"]["args"])), args=list(vj["ia"]["args"]))
+    return InitialAssignment(fn=fn_of(vj["ia"]), args=list(vj["ia"]["args"]))
+
+
+def mkpar(vj):
+    """element of add_parameters / update_parameters: the bare value, or a `Parameter` object carrying it"""
+    from mxlpy.types import Parameter
+
+    return Parameter(value=mkval(vj)) if vj.get("obj") else mkval(vj)
+
+
+def mkvar(vj):
+    from mxlpy.types import Variable
+
+    return Variable(initial_value=mkval(vj)) if vj.get("obj") else mkval(vj)
+
+
+def clean_val(vj):
+    """a VAL without the transport-only "obj" mark"""
+    if isinstance(vj, dict) and "obj" in vj:
+        return {k: v for k, v in vj.items() if k != "obj"}
+    return vj
+
+
+def default_sig(e, n_args):
+    return [max(n_args, fexpr.max_arg(e) + 1), None, 0, False]
+
+
+def with_sig(fj):
+    """FN with its signature spelled out (what `snapshot` reads back from the function object)"""
+    if "sig" in fj:
+        return fj
+    return {**fj, "sig": default_sig(fj["e"], len(fj["args"]))}
+
+
+def val_with_sig(vj):
+    vj = clean_val(vj)
+    if isinstance(vj, dict) and "ia" in vj:
+        return {**vj, "ia": with_sig(vj["ia"])}
+    return vj
+
+
+FLAG_NAMES = ["include_time", "include_variables", "include_parameters", "include_derived_parameters",
+              "include_derived_variables", "include_reactions", "include_surrogate_variables",
+              "include_surrogate_fluxes", "include_readouts"]
+
+
+def flags_kw(fl, skip_time=False):
+    return {k: bool(v) for k, v in zip(FLAG_NAMES, fl) if not (skip_time and k == "include_time")}
+
+
+def tc_frame(m, rows):
+    import pandas as pd
+
+    names = m.get_variable_names()
+    data = [[F(vals[i % len(vals)]) for i in range(len(names))] for _, vals in rows]
+    return pd.DataFrame(data, index=[F(t) for t, _ in rows], columns=names, dtype=float)
+
+
+def frame_rows(df):
+    # positional: a label may occur twice (a reaction named like a surrogate flux is listed by both name getters)
+    cols = list(df.columns)
+    return [[[c, C.num(v)] for c, v in zip(cols, row)] for row in df.to_numpy().tolist()]
 
 
 def mkcoef(cj):
@@ -104,11 +227,11 @@ def mkst(st):
     return {c: mkcoef(cj) for c, cj in st}
 
 
-def mksur(sj):
+def mksur(sj, arity=0):
     from mxlpy.surrogates import qss
 
     return qss.Surrogate(
-        model=mkmulti(sj["es"], len(sj["args"])),
+        model=mkmulti(sj["es"], max(len(sj["args"]), arity)),
         args=list(sj["args"]),
         outputs=list(sj["outs"]),
         stoichiometries={f: mkst(st) for f, st in sj["st"]},
@@ -132,6 +255,63 @@ def run_query(m, q):
             return {"ok": sorted([k, C.num(v)] for k, v in m.get_parameter_values().items())}
         if kind == "classes":
             return {"ok": [list(m.get_derived_parameter_names()), list(m.get_derived_variable_names())]}
+        if kind == "names":
+            w = q[2]
+            if w == "vars":
+                return {"ok": list(m.get_variable_names())}
+            if w == "pars":
+                return {"ok": list(m.get_parameter_names())}
+            if w == "rxns":
+                return {"ok": list(m.get_reaction_names())}
+            if w == "readouts":
+                return {"ok": list(m.get_readout_names())}
+            if w == "surouts":
+                return {"ok": list(m.get_surrogate_output_names(include_fluxes=True))}
+            if w == "survars":
+                return {"ok": list(m.get_surrogate_output_names(include_fluxes=False))}
+            if w == "surrxns":
+                return {"ok": list(m.get_surrogate_reaction_names())}
+            if w == "unused":
+                return {"ok": sorted(m.get_unused_parameters())}
+            if w.startswith("raw"):
+                # the default as_copy=True hands out a deep copy: wrecking it must not reach the model
+                d = getattr(m, "get_raw_" + {"rawvars": "variables", "rawpars": "parameters", "rawderived": "derived",
+                                             "rawrxns": "reactions", "rawreadouts": "readouts",
+                                             "rawsurs": "surrogates"}[w])()
+                keys = list(d)
+                for v in d.values():
+                    if hasattr(v, "args"):
+                        v.args = ["wrecked"]
+                d.clear()
+                return {"ok": keys}
+            raise ValueError(q)
+        if kind == "argnames":
+            return {"ok": list(m.get_arg_names(**flags_kw(q[2])))}
+        if kind == "argsf":
+            s = m.get_args(cur_state(m, q[2]), F(q[3]), **flags_kw(q[4]))
+            return {"ok": [[k, C.num(v)] for k, v in s.items()]}
+        if kind == "rawstoich":
+            from mxlpy.types import Derived
+
+            d = m.get_raw_stoichiometries_of_variable(q[2])
+            return {"ok": [[k, {"args": list(v.args)} if isinstance(v, Derived) else {"c": C.num(v)}]
+                           for k, v in d.items()]}
+        if kind == "argstc":
+            return {"ok": frame_rows(m.get_args_time_course(tc_frame(m, q[2]), **flags_kw(q[3], skip_time=True)))}
+        if kind == "fluxestc":
+            return {"ok": frame_rows(m.get_fluxes_time_course(tc_frame(m, q[2])))}
+        if kind == "rhstc":
+            return {"ok": frame_rows(m.get_right_hand_side_time_course(m.get_args_time_course(tc_frame(m, q[2]))))}
+        if kind == "eq":
+            # a newly built model with the same content; units / sources (not part of the wire form) are carried over
+            f = fresh_model(snapshot(m))
+            for a in ("_variables", "_parameters", "_derived", "_readouts", "_reactions"):
+                for k_, v in getattr(m, a).items():
+                    w = getattr(f, a)[k_]
+                    for attr in ("unit", "source"):
+                        if hasattr(v, attr):
+                            setattr(w, attr, getattr(v, attr))
+            return {"ok": bool(m == f)}
         if kind == "stoichvar":
             d = m.get_stoichiometries_of_variable(q[2], cur_state(m, q[3]), F(q[4]))
             return {"ok": sorted([k, C.num(v)] for k, v in d.items())}
@@ -170,12 +350,21 @@ def canon_exc(e):
 def apply_mut(m, op):
     """apply one mutator op to the real model (raises what the model raises)"""
     k = op[0]
+    meta = {}
+    if op[-1] == "meta":
+        # unit= / source= keywords (no query of the property reads them; the branches are exercised)
+        import sympy
+
+        op = op[:-1]
+        meta = {"unit": sympy.Symbol("u")}
+        if k in ("update_parameter", "update_variable"):
+            meta["source"] = "somewhere"
     if k == "add_parameter":
         m.add_parameter(op[1], mkval(op[2]))
     elif k == "remove_parameter":
         m.remove_parameter(op[1])
     elif k == "update_parameter":
-        m.update_parameter(op[1], None if op[2] is None else mkval(op[2]))
+        m.update_parameter(op[1], None if op[2] is None else mkval(op[2]), **meta)
     elif k == "scale_parameter":
         m.scale_parameter(op[1], F(op[2]))
     elif k == "make_parameter_dynamic":
@@ -185,11 +374,11 @@ def apply_mut(m, op):
             stoichiometries=None if op[3] is None else {r: F(v) for r, v in op[3]},
         )
     elif k == "add_parameters":
-        m.add_parameters({n: mkval(v) for n, v in op[1]})
+        m.add_parameters({n: mkpar(v) for n, v in op[1]})
     elif k == "remove_parameters":
         m.remove_parameters(list(op[1]))
     elif k == "update_parameters":
-        m.update_parameters({n: mkval(v) for n, v in op[1]})
+        m.update_parameters({n: mkpar(v) for n, v in op[1]})
     elif k == "scale_parameters":
         m.scale_parameters({n: F(v) for n, v in op[1]})
     elif k == "add_variable":
@@ -197,41 +386,54 @@ def apply_mut(m, op):
     elif k == "remove_variable":
         m.remove_variable(op[1], remove_stoichiometries=bool(op[2]))
     elif k == "update_variable":
-        m.update_variable(op[1], mkval(op[2]))
+        m.update_variable(op[1], mkval(op[2]), **meta)
     elif k == "make_variable_static":
         m.make_variable_static(op[1], None if op[2] is None else F(op[2]))
     elif k == "add_variables":
-        m.add_variables({n: mkval(v) for n, v in op[1]})
+        m.add_variables({n: mkvar(v) for n, v in op[1]})
     elif k == "remove_variables":
-        m.remove_variables(list(op[1]), remove_stoichiometries=bool(op[2]))
+        # an iterator, as the signature allows (`variables: Iterable[str]`)
+        m.remove_variables(iter(list(op[1])), remove_stoichiometries=bool(op[2]))
     elif k == "update_variables":
-        m.update_variables({n: mkval(v) for n, v in op[1]})
+        m.update_variables({n: mkvar(v) for n, v in op[1]})
     elif k == "add_derived":
-        m.add_derived(op[1], fn=mkfn(op[2]["e"], len(op[2]["args"])), args=list(op[2]["args"]))
+        m.add_derived(op[1], fn=fn_of(op[2]), args=list(op[2]["args"]))
     elif k == "update_derived":
-        ar = len(op[3]) if op[3] is not None else (len(m._derived[op[1]].args) if op[1] in m._derived else 0)
-        m.update_derived(op[1], None if op[2] is None else mkfn(op[2], ar), args=None if op[3] is None else list(op[3]))
+        ar = len(op[3]) if op[3] is not None else 0
+        m.update_derived(op[1], None if op[2] is None else bare_fn(op[2], ar), args=None if op[3] is None else list(op[3]),
+                         **meta)
     elif k == "remove_derived":
         m.remove_derived(op[1])
     elif k == "add_reaction":
         r = op[2]
-        m.add_reaction(op[1], fn=mkfn(r["e"], len(r["args"])), args=list(r["args"]), stoichiometry=mkst(r["st"]))
+        m.add_reaction(op[1], fn=fn_of(r), args=list(r["args"]), stoichiometry=mkst(r["st"]))
     elif k == "update_reaction":
-        ar = len(op[3]) if op[3] is not None else (len(m._reactions[op[1]].args) if op[1] in m._reactions else 0)
+        ar = len(op[3]) if op[3] is not None else 0
         m.update_reaction(
             op[1],
-            None if op[2] is None else mkfn(op[2], ar),
+            None if op[2] is None else bare_fn(op[2], ar),
             args=None if op[3] is None else list(op[3]),
             stoichiometry=None if op[4] is None else mkst(op[4]),
+            **meta,
         )
     elif k == "remove_reaction":
         m.remove_reaction(op[1])
     elif k == "add_readout":
-        m.add_readout(op[1], fn=mkfn(op[2]["e"], len(op[2]["args"])), args=list(op[2]["args"]))
+        m.add_readout(op[1], fn=fn_of(op[2]), args=list(op[2]["args"]))
     elif k == "remove_readout":
         m.remove_readout(op[1])
     elif k == "add_surrogate":
-        m.add_surrogate(op[1], mksur(op[2]))
+        if len(op) > 3:
+            m.add_surrogate(
+                op[1],
+                # the function takes as many arguments as the overriding `args=` names (arity is not the subject here)
+                mksur(op[2], 0 if op[3] is None else len(op[3])),
+                args=None if op[3] is None else list(op[3]),
+                outputs=None if op[4] is None else list(op[4]),
+                stoichiometries=None if op[5] is None else {f: mkst(st) for f, st in op[5]},
+            )
+        else:
+            m.add_surrogate(op[1], mksur(op[2]))
     elif k == "update_surrogate":
         m.update_surrogate(
             op[1],
@@ -260,14 +462,22 @@ def singular_ops(op):
         return [[s, n, op[2]] for n in op[1]]
     if k == "remove_parameters":
         return [[s, n] for n in op[1]]
-    return [[s, n, v] for n, v in op[1]]
+    return [[s, n, clean_val(v)] for n, v in op[1]]
 
 
 # --------------------------------------------------------------------------- real model -> wire
 
 
 def _fn_wire(obj):
-    return {"args": list(obj.args), "e": obj.fn._mxl_e}
+    w = {"args": list(obj.args), "e": obj.fn._mxl_e}
+    # the number of positional parameters is part of the function: a fresh model gets the same function
+    sig = getattr(obj.fn, "_mxl_sig", None)
+    if sig is None:
+        import inspect
+
+        sig = [len(inspect.getfullargspec(obj.fn).args), None, 0, False]
+    w["sig"] = sig
+    return w
 
 
 def _val_wire(v):
@@ -282,7 +492,7 @@ def _coef_wire(v):
     from mxlpy.types import Derived
 
     if isinstance(v, Derived):
-        return _fn_wire(v)
+        return {"args": list(v.args), "e": v.fn._mxl_e}
     return {"c": C.num(v)}
 
 
